@@ -18,7 +18,9 @@ RULE = ('nested mappings of depth <= 4 and width <= 5 built from dict, OrderedDi
         'MappingProxyType and a non-dict collections.abc.Mapping; keys str (every sanitize key embedded in lower/'
         'UPPER/Capitalised/mixed/non-ASCII-folded case at the start, middle or end; near-misses), int, float, tuple, '
         'bytes, None, frozenset; values str (plain, or carrying a rendering of a secret), bytes, numbers, None, lists '
-        '(also lists holding dicts) and mappings; plus non-mapping arguments. Non-trivial: the result differs from the '
+        '(also lists holding dicts) and mappings; plus non-mapping arguments; plus call sequences in one process '
+        '(the same mapping re-masked with different secrets, a result fed to the next call with another secret, '
+        'strings whose embedded secret already equals the mask, repeated and interleaved calls). Non-trivial: the result differs from the '
         'argument (something was masked) or TypeError was raised; distinct by the encoded tree and mask')
 TRUSTED_BASE = [
     'Lean 4 kernel; axioms audited per theorem (subset of propext, Classical.choice, Quot.sound)',
@@ -244,6 +246,132 @@ def gen_case(rng, quick):
     return gen_tree(rng, depth, width)
 
 
+# ------------------------------------------------------------------ call sequences (one process, in order)
+
+SEQ_MASKS = ['***', '???', '#', '<hidden>', 'XXXX', '%%%%', '*']
+
+
+def gen_seq_tree(rng, embedded_mask=None):
+    """A small mapping whose string leaves carry renderings; with `embedded_mask` the secrets already equal it."""
+    keys = C04.all_keys()
+
+    def leaf():
+        if embedded_mask is not None and rng.random() < 0.7:
+            r = rng.choice(['eq_bare', 'eq_quoted', 'dashdash', 'xml', 'key_quoted', 'cmd_flag', 'colon_quoted'])
+            head, val, tail = C04.render(rng, r, rng.choice(keys), rng.choice(C04.FORMS4), embedded_mask, strict=True)
+            return rng.choice(['', 'user x ']) + head + val + tail
+        x = rng.random()
+        if x < 0.6:
+            return C04.gen_rendering_case(rng, nparts=rng.choice([1, 1, 2]), strict=True)['message']
+        if x < 0.8:
+            return rng.choice(['admin', '/home/admin', 'plain text', '', 'x=1'])
+        return _other_leaf(rng)
+
+    def tree(depth):
+        items, used = [], set()
+        for _ in range(rng.randrange(1, 5)):
+            k = rng.choice(['user', 'cmd', 'body', 'args', 'msg', 'url', 'note', 'extra']) if rng.random() < 0.7 \
+                else gen_str_key(rng)
+            if k in used:
+                continue
+            used.add(k)
+            items.append((k, tree(depth - 1) if depth > 1 and rng.random() < 0.3 else leaf()))
+        return make_mapping(rng, items)
+    return tree(rng.choice([1, 2, 3]))
+
+
+def gen_sequence(rng):
+    """-> (family, steps); a step is ('fresh', arg, mask) or ('feed', index of an earlier step, mask): the
+    result of that earlier call is the argument."""
+    fam = rng.choice(['remask', 'remask', 'embedded', 'embedded', 'interleave', 'repeat'])
+    ms = rng.sample(SEQ_MASKS, 4)
+    if fam == 'remask':
+        d = gen_seq_tree(rng)
+        steps = [('fresh', d, ms[0]), ('feed', 0, ms[0]), ('feed', 0, ms[1]), ('fresh', d, ms[1]),
+                 ('feed', 3, ms[0]), ('feed', 1, ms[2]), ('feed', 2, ms[2])]
+        return fam, steps[:rng.randrange(3, len(steps) + 1)]
+    if fam == 'embedded':
+        d = gen_seq_tree(rng, embedded_mask=ms[0])
+        return fam, [('fresh', d, m) for m in (ms[0], ms[1], ms[0], ms[2])][:rng.randrange(2, 5)]
+    if fam == 'interleave':
+        d1 = gen_seq_tree(rng, embedded_mask=ms[1] if rng.random() < 0.5 else None)
+        d2 = gen_seq_tree(rng, embedded_mask=ms[0] if rng.random() < 0.5 else None)
+        return fam, [('fresh', d1, ms[0]), ('fresh', d2, ms[1]), ('fresh', d1, ms[1]), ('fresh', d2, ms[0]),
+                     ('feed', 0, ms[1]), ('feed', 1, ms[0]), ('fresh', d1, ms[0])]
+    d = gen_seq_tree(rng, embedded_mask=rng.choice([None, ms[0]]))
+    return fam, [('fresh', d, ms[0])] * 3 + [('fresh', dict(d.items()), ms[1]), ('fresh', d, ms[0])]
+
+
+def run_sequence(steps, judge):
+    """Run the calls in order in this process.  `judge(arg, mask)` is called for every step (it makes the call);
+    -> list of (arg, mask, judge result).  A 'feed' step whose source raised re-uses the source's argument."""
+    s = gen_mask.load_strutils()
+    results, out = [], []
+    for kind, x, mask in steps:
+        if kind == 'fresh':
+            arg = x
+        else:
+            arg = results[x]
+        verdict = judge(arg, mask)
+        try:
+            results.append(s.mask_dict_password(arg, mask))
+        except Exception:
+            results.append(arg)
+        out.append((arg, mask, verdict))
+    return out
+
+
+def seq_case(done, failing_step):
+    """JSON-able replay case: every call up to the failing one, arguments as encoded trees."""
+    steps = []
+    for arg, mask, _ in done[:failing_step + 1]:
+        try:
+            tree = Enc().val(arg)
+        except Exception:
+            tree = None
+        steps.append({'tree': tree, 'mask': mask, 'repr': repr(arg)[:400]})
+    return {'kind': 'seq', 'steps': steps, 'failing_step': failing_step}
+
+
+def oracle_sequence(case):
+    """Property oracle on a stored sequence (decoded trees), in order; -> (index, why) of the first failing call."""
+    for i, st in enumerate(case['steps']):
+        arg = decode_tree(st['tree']) if st.get('tree') else None
+        why = oracle(arg, st['mask'])
+        if why:
+            return i, why
+    return None
+
+
+def fresh_process_fails(case):
+    """Does the stored sequence fail the oracle in a *fresh* interpreter (nothing remembered from this run)?"""
+    import os
+    import subprocess
+    import sys
+    code = ('import sys, json; sys.path.insert(0, %r); import common; from props import C08; '
+            'r = C08.oracle_sequence(json.load(sys.stdin)); print(json.dumps(r))' % os.path.dirname(os.path.dirname(__file__)))
+    try:
+        p = subprocess.run([sys.executable, '-c', code], input=json.dumps(case).encode(), stdout=subprocess.PIPE,
+                           stderr=subprocess.PIPE, timeout=120)
+        line = [l for l in p.stdout.decode().splitlines() if l.strip()][-1]
+        return json.loads(line)
+    except Exception:
+        return None
+
+
+def shrink_sequence(case):
+    """Fewest calls that still fail in a fresh process (each candidate is run in its own interpreter)."""
+    if not fresh_process_fails(case):
+        return case                     # only reproducible with this run's history: keep everything
+    steps = case['steps']
+
+    def still(sub):
+        return bool(fresh_process_fails({'kind': 'seq', 'steps': sub}))
+    small = common.shrink_list(steps, still, max_steps=25)
+    r = fresh_process_fails({'kind': 'seq', 'steps': small})
+    return {'kind': 'seq', 'steps': small, 'failing_step': r[0] if r else len(small) - 1}
+
+
 def correspondence(ctx):
     rng = ctx.rng
     n = 1000 if ctx.quick else 30000
@@ -275,6 +403,31 @@ def correspondence(ctx):
                                     'ARGUMENT MODIFIED; result ' + out, rep, where='non-mutation'))
         elif out != rep:
             res.append(Disagreement({'tree': tree, 'mask': mask, 'repr': repr(arg)[:500]}, out, rep))
+    # call sequences: the model is stateless, so every call of a sequence is compared with the model's answer
+    seqs, lines = [], []
+    for _ in range(60 if ctx.quick else 2500):
+        fam, steps = gen_sequence(rng)
+        done = run_sequence(steps, lambda a, m: run_impl(a, m))
+        seqs.append((fam, done))
+        lines += [req('dict', v[0], hexs(m)) for _, m, v in done]
+    replies = iter(ctx.driver.ask_many(lines))
+    for fam, done in seqs:
+        reported = False
+        for i, (arg, mask, (tree, out, mutated)) in enumerate(done):
+            rep = next(replies)
+            ctx.evaluations += 1
+            ctx.count('seq/' + fam)
+            if out != 'ok\t' + tree:
+                ctx.nontrivial(('seq', i, tree, mask))
+            if reported:
+                continue
+            if mutated:
+                res.append(Disagreement(seq_case(done, i), 'ARGUMENT MODIFIED in call %d; result %s' % (i, out), rep,
+                                        where='non-mutation'))
+                reported = True
+            elif out != rep:
+                res.append(Disagreement(seq_case(done, i), 'call %d: %s' % (i, out), 'call %d: %s' % (i, rep)))
+                reported = True
     return res
 
 
@@ -396,7 +549,10 @@ def search(ctx, seeds, full=False):
     rng = ctx.rng
     fails = []
     todo = []
+    seq_seeds = [sd for sd in seeds if sd.get('kind') == 'seq'][:50]
     for s in seeds[:200]:
+        if s.get('kind') == 'seq':
+            continue
         try:
             todo.append((decode_tree(s['tree']), s['mask']))
         except Exception:
@@ -423,6 +579,33 @@ def search(ctx, seeds, full=False):
                                  {'kind': kindword, 'what': oracle(small, mask)}))
             if len(fails) >= 5:
                 break
+    # call sequences: the result of every call must depend on that call's arguments only
+    def report(case, why):
+        small = shrink_sequence(case)
+        r = oracle_sequence(small) if small is not case else None
+        fails.append(Failure(small, {'kind': 'sequence-' + why.split(':')[0],
+                                     'what': 'call %d of the sequence: %s' % (small.get('failing_step', -1), why)}))
+    for sd in seq_seeds:
+        ctx.evaluations += 1
+        r = oracle_sequence(sd)
+        if r and len(fails) < 5:
+            report(dict(sd, failing_step=r[0]), r[1])
+    nseq = (600 if full else 80) if ctx.quick else (8000 if full else 1500)
+    seq_kinds = set()
+    for _ in range(nseq):
+        if len(fails) >= 5:
+            break
+        fam, steps = gen_sequence(rng)
+        done = run_sequence(steps, oracle)
+        for i, (arg, mask, why) in enumerate(done):
+            ctx.evaluations += 1
+            ctx.count('search/seq/' + fam)
+            if why:
+                k = why.split(':')[0]
+                if k not in seq_kinds or len(fails) < 2:
+                    seq_kinds.add(k)
+                    report(seq_case(done, i), why)
+                break
     return fails
 
 
@@ -432,6 +615,18 @@ def replay(ctx, payload):
         print('nothing to replay: this file names the obligation that no longer checks:')
         print(json.dumps(payload.get('no_longer_checks'), indent=1)[:4000])
         return 0
+    if case.get('kind') == 'seq':
+        bad = 0
+        for i, st in enumerate(case['steps']):
+            arg = decode_tree(st['tree']) if st.get('tree') else None
+            why = oracle(arg, st['mask'])
+            tree, out, mutated = run_impl(arg, st['mask'])
+            print('call %d: mask=%r argument=%s' % (i, st['mask'], st.get('repr')))
+            print('   implementation :', out, '(ARGUMENT MODIFIED)' if mutated else '')
+            print('   model          :', ctx.driver.ask(req('dict', tree, hexs(st['mask']))))
+            print('   property oracle:', why)
+            bad += bool(why)
+        return 1 if bad else 0
     print('argument (repr):', case.get('repr'))
     arg = decode_tree(case['tree']) if case.get('tree') else None
     mask = case.get('mask', '***')
